@@ -200,14 +200,14 @@ def check_flush_buffer(A, rep):
             rep.context(label, True)
             lv = live(g)
             flush_nodes = [n for n in lv if n.in_extent("_flush") and not n.func.endswith("_flush_buffer")]
-            handlers = [n for n in lv if n.kind == "handler" and n.func.endswith("._flush_buffer") and {"OSError", "MetadataError"} <= set(n["types"])]
+            handlers = [n for n in lv if n.kind == "handler" and own(n) and {"OSError", "MetadataError"} <= set(n["types"])]
             if not handlers:
                 rep.fail("C07.c", norm_key("C07.c", func.qualname, "handler"), "the class-wide flush no longer catches (OSError, MetadataError) around the per-collection flush", [], label)
                 continue
             h = handlers[0]
             raises = [n.id for n in lv if n.kind == "raise"]
-            heads = [n.id for n in lv if n.kind == "join" and n["what"] == "loop-head" and n.func.endswith("._flush_buffer")]
-            stores = [n.id for n in lv if n.kind == "local_mut" and n.func.endswith("._flush_buffer") and n.span[0] >= h.span[0] and n.span[1] <= h.span[1]]
+            heads = [n.id for n in lv if n.kind == "join" and n["what"] == "loop-head" and own(n)]
+            stores = [n.id for n in lv if n.kind == "local_mut" and own(n) and n.span[0] >= h.span[0] and n.span[1] <= h.span[1]]
             # from the handler: must store the issue and come back to the loop head, never raise / exit first
             w1 = g.path(h.id, [g.exit, g.exc_exit] + raises, avoid=heads)
             w2 = g.must_pass(h.id, heads, stores)
@@ -217,8 +217,8 @@ def check_flush_buffer(A, rep):
                 rep.fail("C07.c", norm_key("C07.c", func.qualname, "isolation"),
                          "the class-wide flush does not isolate a failing file: its handler can leave the loop / re-raise, or does not record the file", g.witness(w1 or w2 or []), label)
             # collections that were retained (still buffered / forced flush) go back into the registry on EVERY way out
-            restores = [n.id for n in lv if n.kind == "cs_write" and n["name"] == "_buffered_collections" and n["op"] in ("call:update", "rebind", "setitem") and n.func.endswith("._flush_buffer")]
-            outs_ = [g.exit] + [n.id for n in lv if n.kind == "raise" and "BufferedError" in (n["exc"] or ()) and n.func.endswith("._flush_buffer")]
+            restores = [n.id for n in lv if n.kind == "cs_write" and n["name"] == "_buffered_collections" and n["op"] in ("call:update", "rebind", "setitem") and own(n)]
+            outs_ = [g.exit] + [n.id for n in lv if n.kind == "raise" and "BufferedError" in (n["exc"] or ()) and own(n)]
             wr = g.must_pass(g.entry, outs_, restores)
             if wr is None and restores:
                 rep.ok("C07.c", f"C07.c {label}: retained collections are put back into the registry on the normal and on the BufferedError exit")
@@ -226,7 +226,7 @@ def check_flush_buffer(A, rep):
                 rep.fail("C07.c", norm_key("C07.c", func.qualname, "registry-restore"),
                          "the class-wide flush can leave (normally or with BufferedError) without putting the retained collections back into the registry: they are never flushed again and their buffer entries outlive all contexts",
                          g.witness(wr or []), label)
-            be = [n for n in lv if n.kind == "raise" and "BufferedError" in (n["exc"] or ()) and n.func.endswith("._flush_buffer")]
+            be = [n for n in lv if n.kind == "raise" and "BufferedError" in (n["exc"] or ()) and own(n)]
             stored_dict = [g.nodes[s]["base"] for s in stores]
             good = [n for n in be if n["value"] is not None and any(a in stored_dict for a in n["value"].args[2])]
             if good:
@@ -234,7 +234,7 @@ def check_flush_buffer(A, rep):
             else:
                 rep.fail("C07.c", norm_key("C07.c", func.qualname, "buffered-error"), "BufferedError is no longer raised with the mapping of the files that failed", [], label)
             # exceptions of the per-collection flush reach the handler
-            calls = [n for n in lv if is_enter(n, "_flush") and len(n.stack) == 2]
+            calls = [n for n in lv if is_enter(n, "_flush") and depth(n) == 2]
             if calls and all(any(g.nodes[p].kind == "join" for p in g.reaching_back([h.id])) for c in calls):
                 pass
 
@@ -248,7 +248,7 @@ def check_context(A, rep):
         # enter: exactly one push on every path
         b, g = A.ctx_exit_graph(cls, "backend", 0, 0, method="__enter__")
         rep.context(g.label, True)
-        pushes = [n.id for n in live(g) if n.kind == "local_mut" and n["op"] == "append" and "__enter__" in n.func]
+        pushes = [n.id for n in live(g) if n.kind == "local_mut" and n["op"] == "append" and own(n)]
         w = g.must_pass(g.entry, [g.exit], pushes)
         if w is None and pushes:
             rep.ok("C07.d", f"C07.d {g.label}: one capacity is pushed on every path")
@@ -266,7 +266,7 @@ def check_context(A, rep):
                     else:
                         rep.fail("C07.d", norm_key("C07.d", "context.__exit__", "counter", what),
                                  f"leaving the backend-wide context can finish ({what}) without decrementing the context counter: the class stays 'buffered' forever and later writes never reach the files", g.witness(wdec or []), g.label)
-            pops = [n.id for n in live(g) if n.kind == "local_mut" and n["op"] == "pop" and "__exit__" in n.func]
+            pops = [n.id for n in live(g) if n.kind == "local_mut" and n["op"] == "pop" and own(n)]
             for exit_id, what in ((g.exit, "returns"), (g.exc_exit, "raises (a file conflicted during the flush)")):
                 if exit_id not in g.live:
                     continue
